@@ -47,6 +47,11 @@ Definition alg_pe : alg pe :=
 Definition alg_q : alg Q :=
   mk_alg Q 0%Q 1%Q Qplus Qmult Qminus (fun q n => Qpower q (Z.of_nat n)).
 
+(* the same arithmetic with every sum reduced to lowest terms (keeps the extracted model fast);
+   related to [alg_q] by Qeq, see Proofs/AutoEqP.v *)
+Definition alg_qr : alg Q :=
+  mk_alg Q 0%Q 1%Q (fun a b => Qred (Qplus a b)) Qmult Qminus (fun q n => Qpower q (Z.of_nat n)).
+
 Definition asum {T} (A : alg T) (l : list T) : T := fold_left (aadd A) l (a0 A).
 Definition aprod {T} (A : alg T) (l : list T) : T := fold_left (amul A) l (a1 A).
 
